@@ -34,6 +34,16 @@ EmitLetters ==
     \A k \in 1..Len(LetterKws) : \A l \in 1..Len(Letters) : \A b \in 1..Len(BigCounts) : \A sg \in 1..3 :
       LET txt == LetterKws[k] \o <<cSP>> \o Signs[sg] \o BigCounts[b] \o <<Letters[l]>>
       IN PrintT(ToJson([i |-> txt, e |-> ParseText(txt), tag |-> "C07"]))
+\* every printable character BETWEEN two digits of a numeric argument (a fraction, a separator, an exponent are not
+\* decimal numbers), for every numeric keyword, with and without unit
+BetweenKws == <<Cp("-uid"), Cp("-gid"), Cp("-inum"), Cp("-links"), Cp("-size"), Cp("-mtime"), Cp("-amin"), Cp("-cmin"), Cp("-atime"), Cp("-threads"),
+               Cp("-mirror-count"), Cp("-stripe-count")>>
+EmitBetween ==
+  vSeq = <<>> =>
+    \A k \in 1..Len(BetweenKws) : \A c \in {x \in 33..126 : x \notin {39, 34, 41} /\ ~(x >= 48 /\ x <= 57)} : \A sg \in 1..3 :
+      \A tail \in {Cp("5"), Cp("05h"), Cp("5k"), Cp("000")} :
+        LET txt == BetweenKws[k] \o <<cSP>> \o Signs[sg] \o Cp("1") \o <<c>> \o tail
+        IN PrintT(ToJson([i |-> txt, e |-> ParseText(txt), tag |-> "C07"]))
 Zeros == << <<>>, <<c0>>, <<c0, c0, c0, c0, c0>> >>
 
 \* pseudo-random 64-bit-ish values from the seed (linear congruential on BigNat, deterministic)
